@@ -56,7 +56,7 @@ func declCrypto(x *Exec) {
 	x.ufun("edpk", []string{SStr}, SStr)
 	x.Reg.Axiom("edpkLen", "(forall ((a String)) (! (= (str.len (edpk a)) 32) :pattern ((edpk a))))")
 	x.ufun("pkixOf", []string{SStr}, SStr)
-	x.Reg.Axiom("pkixRT", "(forall ((k String)) (! (and (= (edpk (pkixOf k)) k) (okPk (pkixOf k)) (isEd (pkixOf k)) (> (str.len (pkixOf k)) 0)) :pattern ((pkixOf k))))")
+	x.Reg.Axiom("pkixRT", "(forall ((k String)) (! (and (=> (= (str.len k) 32) (and (= (edpk (pkixOf k)) k) (okPk (pkixOf k)) (isEd (pkixOf k)))) (> (str.len (pkixOf k)) 0)) :pattern ((pkixOf k))))")
 	x.ufun("edpub", []string{SStr}, SStr) // public key of an ed25519 private key
 	x.ufun("edsign", []string{SStr, SStr, SStr}, SStr)
 	x.Reg.Axiom("signVerifies", "(forall ((k String) (m String) (r String)) (! (Verify (edpub k) m (edsign k m r)) :pattern ((edsign k m r))))")
@@ -127,6 +127,16 @@ func (x *Exec) evalSpecBuiltin(c *evalCtx, fn string, a []Val) (Val, bool, error
 		return bval(app("aeadOk", SBool, s(0), s(1), s(2))), true, nil
 	case "aeadPt":
 		return strV(app("aeadPt", SStr, s(0), s(1), s(2))), true, nil
+	case "certOf":
+		return scalar(x.certRef(s(0)), types.NewPointer(x.certType())), true, nil
+	case "keyOf":
+		return strV(x.bytesContent(st, x.payloadBytes(a[0]))), true, nil
+	case "unpkcs8":
+		x.ufun("unpkcs8", []string{SStr}, SStr)
+		return strV(app("unpkcs8", SStr, s(0))), true, nil
+	case "pkcs8":
+		x.ufun("pkcs8", []string{SStr}, SStr)
+		return strV(app("pkcs8", SStr, s(0))), true, nil
 	case "hdr":
 		return strV(x.hdr(a[0].T)), true, nil
 	case "unM":
@@ -202,7 +212,7 @@ func init() {
 	})
 	// ---- fmt / errors
 	reg("fmt.Errorf", func(x *Exec, st *State, c *CallCtx) []Outcome {
-		e := x.newErr(st, "errorf")
+		e := x.newErrAny(st, "errorf")
 		format := c.Args[0].T
 		wraps := isStrLit(format) && strings.Contains(format.S, "%w")
 		if wraps {
@@ -237,11 +247,7 @@ func init() {
 		return one(st, e)
 	})
 	reg("errors.New", func(x *Exec, st *State, c *CallCtx) []Outcome {
-		e := x.newErr(st, "new")
-		for _, p := range []string{"isNotFound", "isDuplicate", "isClosed", "isTemporary"} {
-			st.assume(Not(x.errPred(p, e.T)))
-		}
-		return one(st, e)
+		return one(st, x.newErr(st, "new"))
 	})
 	reg("errors.Is", func(x *Exec, st *State, c *CallCtx) []Outcome {
 		target := c.Args[1]
@@ -489,7 +495,7 @@ func (x *Exec) variadicVals(st *State, s Val) []Val {
 	et := s.GoT.Underlying().(*types.Slice).Elem()
 	var out []Val
 	for i := int64(0); i < n; i++ {
-		ix := Add(s.Off, IntT(i))
+		ix := x.idxTerm(s.Off, IntT(i))
 		v := x.loadAddrPure(st, &Addr{Prefix: elemPrefix(et), Ref: s.Ref, Idx: &ix, T: et})
 		if v.K == VIface && v.Payload != nil && !isErrorType(v.Dyn) {
 			if _, isIface := v.Dyn.Underlying().(*types.Interface); !isIface {
@@ -513,7 +519,7 @@ func (x *Exec) variadicIfaces(st *State, s Val) []Val {
 	et := s.GoT.Underlying().(*types.Slice).Elem()
 	var out []Val
 	for i := int64(0); i < n; i++ {
-		ix := Add(s.Off, IntT(i))
+		ix := x.idxTerm(s.Off, IntT(i))
 		v := x.loadAddrPure(st, &Addr{Prefix: elemPrefix(et), Ref: s.Ref, Idx: &ix, T: et})
 		if v.K == VIface && v.Payload != nil && v.Payload.K == VIface {
 			out = append(out, *v.Payload)
